@@ -304,12 +304,16 @@ def corrupt_export(r, doc, opts, info, what=None):
         if not participants:
             return None
         rt = doc["registrations"][r.choice(participants)]["tracks"][t]
+        # an id no course has: far above all ids, just above, 0, or in a gap between the ids of the export
+        ids = sorted(int(k) for k in doc["courses"].keys())
+        gaps = [x for x in range(1, (ids[-1] if ids else 0) + 1) if x not in ids]
+        nowhere = r.choice([9999, 0, (ids[-1] + 1) if ids else 1] + ([r.choice(gaps), r.choice(gaps)] if gaps else []))
         if what == "dangling-choice":
-            rt["choices"] = rt["choices"] + [9999]
+            rt["choices"] = rt["choices"] + [nowhere]
         elif what == "dangling-assigned":
-            rt["course_id"] = 9999
+            rt["course_id"] = nowhere
         elif what == "dangling-instr":
-            rt["course_instructor"] = 9999
+            rt["course_instructor"] = nowhere
         elif what == "choice-str":
             rt["choices"] = rt["choices"] + [r.choice(["3", None, 2.5, -1])]
         elif what == "no-choices":
@@ -448,6 +452,20 @@ def gen_simple(r, rooms_mode=1, big=False):
             c["instructors"].append(i)
     for c in courses:
         r.shuffle(c["instructors"])
+    # names identify nothing: two courses / two participants of the same name, a hidden name equal to the
+    # name of somebody who may end up in that course
+    nm = r.random()
+    if nm < 0.1 and nc >= 2:
+        i, j = r.sample(range(nc), 2)
+        courses[j]["name"] = courses[i]["name"]
+    elif nm < 0.2 and np_ >= 2:
+        i, j = r.sample(range(np_), 2)
+        parts[j]["name"] = parts[i]["name"]
+    elif nm < 0.3:
+        cands = [(p, ch["course"]) for p in parts for ch in p["choices"]]
+        if cands:
+            p, ci = r.choice(cands)
+            courses[ci].setdefault("hidden_participant_names", []).append(p["name"])
     rooms = None
     if rooms_mode == 2 or (rooms_mode == 1 and r.random() < 0.5):
         n = r.randint(1, nc + 2)
@@ -965,6 +983,24 @@ def stream_e2e_cde(seed, tier, workdir, stream):
                 c["fields"]["room_factor"] = r.choice([2, 2.5, 3])
                 c["fields"]["room_offset"] = r.choice([0, 0, 1])
             rooms = [r.choice([6, 8, 10, 12]) for _ in range(len(doc["courses"]))]
+        if i % 10 == 7:
+            # somebody who stays without a course in the MIDDLE of the registrations: an instructor without own
+            # choices (first in the reader's order) whose course cannot reach its minimum, everybody else elsewhere
+            t = str(info["sel_track"]); sp = str(info["sel_part"])
+            offered = [k for k, c in doc["courses"].items() if c["segments"].get(t) is True]
+            keys = sorted(k for k, g in doc["registrations"].items() if isinstance(g["parts"].get(sp), dict) and g["parts"][sp].get("status") == 2)
+            if len(offered) >= 2 and len(keys) >= 3:
+                x = r.choice(offered)
+                doc["courses"][x]["min_size"] = 30; doc["courses"][x]["max_size"] = 40
+                for k, g in doc["registrations"].items():
+                    gt = g["tracks"][t]
+                    gt["choices"] = [c for c in gt["choices"] if c != int(x)]
+                    if gt["course_instructor"] == int(x):
+                        gt["course_instructor"] = None
+                    if gt["course_id"] == int(x):
+                        gt["course_id"] = None
+                g = doc["registrations"][keys[0] if i % 20 == 7 else keys[len(keys) // 2]]
+                g["tracks"][t].update({"choices": [], "course_instructor": int(x), "course_id": None})
         if i % 8 == 1:
             # namesakes: people sharing one printed name (all of them, or pairs) — names identify nobody
             regs = list(doc["registrations"].values())
